@@ -446,7 +446,7 @@ namespace avel {
         }
 
         AVEL_FINL Vector operator-() const {
-            return Vector{0.0} - *this;
+            return Vector{_mm256_xor_pd(content, _mm256_set1_pd(-0.0))};
         }
 
         //=================================================
